@@ -14,6 +14,8 @@ SPEC = {
                     "commitment-clause-eligible": 0.04, "low-work-peer": 0.05, "tight-length-bound": 0.1, "outcome:complete": 0.05, "outcome:redownload-failed": 0.05},
             rule="peer behaviours over synthetic header chains vs own release-discipline model; non-trivial = reached REDOWNLOAD and (released >= 1 or adversarial second pass)"),
         gen("vh_c33", "up_headers_sync_state", 10000, 150000, max_seconds_quick=600, rule="upstream fuzz target headers_sync_state (asserts + sanitizers), supplementary"),
+        # coverage-guided libFuzzer campaign on the same target (thorough tier only; fz tree = g++ trace-pc + covshim)
+        fuzz('vh_c33', 'c33_headerssync', 300, max_len=400),
     ],
 }
 
